@@ -3,9 +3,8 @@ package c01
 
 import (
 	"encoding/json"
-	"fmt"
-	"strings"
 
+	"verif/harness/exprpos"
 	"verif/harness/gen"
 	"verif/harness/mon"
 	. "verif/harness/pqlref"
@@ -44,7 +43,7 @@ func init() {
 	})
 }
 
-var positions = []string{"where", "project", "extend", "extend-unnamed", "summarize-agg", "summarize-key", "sort", "top", "take", "let", "join-on"}
+var positions = exprpos.Positions
 
 func typeFor(pos string, rng interface{ Intn(int) int }) gen.Ty {
 	switch pos {
@@ -92,149 +91,11 @@ func generate(w *mon.W) {
 		}
 		x := g.Gen(typeFor(pos, rng), 1+rng.Intn(7))
 		if pos == "join-on" {
-			x = joinify(x, rng)
+			x = exprpos.Joinify(x, nil, rng)
 		}
 		c := &Case{X: x, Pos: pos, Seed: rng.Int63()}
 		w.Do("r|"+pos+"|"+Canon(x), func(r *mon.R) { Check(c, r) })
 	}
-}
-
-// joinify qualifies every column with $left or $right and keeps `==`
-// between the two sides at conjunct positions only.
-func joinify(x *E, rng interface{ Intn(int) int }) *E {
-	var q func(e *E, side string) *E
-	q = func(e *E, side string) *E {
-		c := *e
-		if e.K == "name" && !(len(e.Parts) == 1 && !e.Parts[0].Quoted && (e.Parts[0].Name == "true" || e.Parts[0].Name == "false" || e.Parts[0].Name == "null")) {
-			s := side
-			if s == "" {
-				s = []string{"$left", "$right"}[rng.Intn(2)]
-			}
-			c.Parts = append([]Ident{{Name: s}}, e.Parts...)
-			return &c
-		}
-		c.Kids = nil
-		for _, k := range e.Kids {
-			c.Kids = append(c.Kids, q(k, side))
-		}
-		return &c
-	}
-	// one side per comparison operand, so that a comparison never mixes both
-	// sides below an `==` that is not a conjunct
-	var top func(e *E) *E
-	top = func(e *E) *E {
-		if e.K == "bin" && e.Op == "and" {
-			return Bin("and", top(e.Kids[0]), top(e.Kids[1]))
-		}
-		if e.K == "bin" && e.Op == "==" {
-			return Bin("==", q(e.Kids[0], "$left"), q(e.Kids[1], "$right"))
-		}
-		return q(e, []string{"$left", "$right"}[rng.Intn(2)])
-	}
-	return top(x)
-}
-
-// build wraps the surface expression into a program for the position.
-func build(pos string, sx *E) *Program {
-	id := func(n string) *Ident { return &Ident{Name: n} }
-	switch pos {
-	case "where":
-		return Query("T", &Op{K: "where", X: sx})
-	case "project":
-		return Query("T", &Op{K: "project", Cols: []Col{{Name: id("r"), X: sx}}})
-	case "extend":
-		return Query("T", &Op{K: "extend", Cols: []Col{{Name: id("r"), X: sx}}})
-	case "extend-unnamed":
-		return Query("T", &Op{K: "extend", Cols: []Col{{X: sx}}})
-	case "summarize-agg":
-		return Query("T", &Op{K: "summarize", Cols: []Col{{Name: id("r"), X: sx}}, HasBy: true, By: []Col{{Name: id("g"), X: Name("ia")}}})
-	case "summarize-key":
-		return Query("T", &Op{K: "summarize", Cols: []Col{{Name: id("n"), X: Call("count")}}, HasBy: true, By: []Col{{Name: id("r"), X: sx}}})
-	case "sort":
-		return Query("T", &Op{K: "sort", Terms: []SortTerm{{X: sx}}})
-	case "top":
-		return Query("T", &Op{K: "top", X: Num("3"), Terms: []SortTerm{{X: sx, Dir: "asc"}}})
-	case "take":
-		return Query("T", &Op{K: "take", X: sx})
-	case "let":
-		return &Program{Stmts: []*Stmt{{LetName: id("v"), LetX: sx}, {Pipe: &Pipe{Table: Ident{Name: "T"}, Ops: []*Op{{K: "extend", Cols: []Col{{Name: id("r"), X: Name("v")}}}}}}}}
-	case "join-on":
-		return Query("T", &Op{K: "join", Kind: "inner", Right: &Pipe{Table: Ident{Name: "U"}}, Conds: []*E{sx}})
-	}
-	panic("c01: position " + pos)
-}
-
-// locate finds the SQL expression at the position.
-func locate(pos string, st *sqlmini.Stmt) (*sqlmini.X, string) {
-	var sel *sqlmini.Select
-	if pos == "join-on" {
-		for _, c := range st.CTEs {
-			if c.Sel.From.Join != nil {
-				sel = c.Sel
-			}
-		}
-		if st.Body.From.Join != nil {
-			sel = st.Body
-		}
-		if sel == nil {
-			return nil, "no JOIN in the statement"
-		}
-		return sel.From.Join.On, ""
-	}
-	sel = st.Body
-	item := func(i int) (*sqlmini.X, string) {
-		if i >= len(sel.Items) || sel.Items[i].Star {
-			return nil, fmt.Sprintf("select list has no expression at index %d", i)
-		}
-		return sel.Items[i].X, ""
-	}
-	switch pos {
-	case "where":
-		if sel.Where == nil {
-			return nil, "no WHERE clause"
-		}
-		return sel.Where, ""
-	case "project":
-		return item(0)
-	case "extend", "extend-unnamed", "let":
-		return item(1)
-	case "summarize-agg":
-		return item(1)
-	case "summarize-key":
-		if len(sel.GroupBy) != 1 {
-			return nil, "no single GROUP BY key"
-		}
-		return item(0)
-	case "sort", "top":
-		if len(sel.OrderBy) != 1 {
-			return nil, "no single ORDER BY term"
-		}
-		return sel.OrderBy[0].X, ""
-	case "take":
-		if sel.Limit == nil {
-			return nil, "no LIMIT"
-		}
-		return sel.Limit, ""
-	}
-	return nil, "unknown position"
-}
-
-func toEnv(row Row) *sqlmini.Env {
-	env := sqlmini.NewEnv()
-	for k, v := range row {
-		env.Set(v, strings.Split(k, "\x1f")...)
-	}
-	return env
-}
-
-func isTrue(v val.V) string {
-	if v.K == val.Err {
-		return "ERROR"
-	}
-	if v.K == val.Bool && v.B {
-		return "TRUE"
-	}
-	return "not TRUE"
 }
 
 // Check decides one case.
@@ -256,7 +117,7 @@ func Check(c *Case, r *mon.R) {
 	variants := []*E{Parenthesize(meaning, nil), Parenthesize(meaning, func() bool { return rng.Intn(4) == 0 })}
 	var firstSQL string
 	for vi, sx := range variants {
-		prog := build(c.Pos, sx)
+		prog := exprpos.Build(c.Pos, sx)
 		src := Print(prog, Layout{Mode: 0}).Src
 		sql, err, o := mon.Compile(src, nil)
 		if o.Anomalous() {
@@ -284,21 +145,21 @@ func Check(c *Case, r *mon.R) {
 			r.Violation("", "Compile(%q) = %q is not valid SQL: %v", src, sql, perr)
 			return
 		}
-		sx2, why := locate(c.Pos, st)
+		sx2, why := exprpos.Locate(c.Pos, st)
 		if sx2 == nil {
 			r.Inconclusive("foreign_shape_" + c.Pos)
 			_ = why
 			return
 		}
 		for i, row := range rows {
-			env := toEnv(row)
+			env := exprpos.ToEnv(row)
 			got := sqlmini.Eval(sx2, &sqlmini.Ctx{Row: env})
 			same := val.Same(got, want[i])
 			if c.Pos == "join-on" {
-				same = isTrue(got) == isTrue(want[i])
+				same = exprpos.IsTrue(got) == exprpos.IsTrue(want[i])
 			}
 			if !same {
-				r.Violation("", "expression at %s position of %q\n  PQL reading  %s = %v\n  SQL emitted  %s\n  SQL reading  %s = %v\n  on row %v", c.Pos, src, Canon(meaning), want[i], sql, sx2.String(), got, rowString(row))
+				r.Violation("", "expression at %s position of %q\n  PQL reading  %s = %v\n  SQL emitted  %s\n  SQL reading  %s = %v\n  on row %v", c.Pos, src, Canon(meaning), want[i], sql, sx2.String(), got, exprpos.RowString(row))
 				return
 			}
 		}
@@ -306,8 +167,8 @@ func Check(c *Case, r *mon.R) {
 			// GROUP BY must group by the same expression that is selected
 			gx := st.Body.GroupBy[0]
 			for i, row := range rows {
-				if got := sqlmini.Eval(gx, &sqlmini.Ctx{Row: toEnv(row)}); !val.Same(got, want[i]) {
-					r.Violation("", "GROUP BY key of %q reads %s = %v, the PQL key is %v on row %v", src, gx.String(), got, want[i], rowString(row))
+				if got := sqlmini.Eval(gx, &sqlmini.Ctx{Row: exprpos.ToEnv(row)}); !val.Same(got, want[i]) {
+					r.Violation("", "GROUP BY key of %q reads %s = %v, the PQL key is %v on row %v", src, gx.String(), got, want[i], exprpos.RowString(row))
 					return
 				}
 			}
@@ -356,14 +217,6 @@ func rotate(e *E) *E {
 		}
 	}
 	return nil
-}
-
-func rowString(row Row) string {
-	var p []string
-	for k, v := range row {
-		p = append(p, strings.ReplaceAll(k, "\x1f", ".")+"="+v.String())
-	}
-	return "{" + strings.Join(val.SortStrings(p), ", ") + "}"
 }
 
 func clip(s string, n int) string {
